@@ -143,3 +143,16 @@ Proof.
       * unfold mem. cbn [existsb]. rewrite Nat.eqb_refl. reflexivity.
       * unfold mem. cbn [existsb]. rewrite Nat.eqb_refl. apply orb_true_r.
 Qed.
+
+(* a valid sequence in which every constraint is used has at most sum of max(0, degree - 2) constraints *)
+Theorem admissible_length cs : forall vars p,
+  wf vars p -> valid_cons vars cs = true -> admissible p cs = true -> (length cs <= excess p)%nat.
+Proof.
+  induction cs as [|[[u v] x] r IH]; intros vars p Hwf Hv Ha; [cbn; lia|].
+  apply valid_cons_cons in Hv. destruct Hv as [Huv [_ [_ [Hx Hr]]]].
+  cbn [admissible] in Ha. apply andb_true_iff in Ha. destruct Ha as [He Ha].
+  apply existsb_exists in He. destruct He as [t [Ht Happ]].
+  pose proof (excess_subst_lt u v x p (wf_terms_NoDup vars p Hwf) Huv (ex_intro _ t (conj Ht Happ))) as Hlt.
+  specialize (IH (x :: vars) (subst_step (u, v, x) p) (subst_step_wf u v x vars p Hwf Hx) Hr Ha).
+  cbn [length]. lia.
+Qed.
